@@ -175,7 +175,8 @@ def check(world, plans, results):
                 vk.add("cb")
             if e[4]:
                 vk.add("ca")
-    v.sig = sig_of(world["src"], world["d"], world["c"], "".join(pattern)[:6], sorted(vk), min(nent // 4, 5))
+    shape = [(0 if sec is None else 1, min(len(lst), 4)) for sec, lst in sorted(before.items(), key=lambda kv: str(kv[0]))]
+    v.sig = sig_of(world["src"], world["d"], world["c"], "".join(pattern)[:12], sorted(vk), min(nent, 20), shape[:6])
     if "ns" in "".join(pattern) or "sn" in "".join(pattern):
         v.probe("groupless_after_section" if "sn" in "".join(pattern) else "section_after_groupless")
     if any(len(x) > 8 for x in before.values()) or nent > 8:
